@@ -1,2 +1,268 @@
-/- Property theorems for C10 (placeholder until the proofs land). -/
-import Avt.Spec.C10
+/-
+  Avt.Props.C10 — resizing keeps the logical text and the cursor's place in it.
+
+  Vocabulary (Avt/Spec/C10.lean — the same definitions the oracle evaluates on the implementation):
+  `logicalLines` (rows joined along wrap marks, trailing default cells removed), `cursorLogical`
+  (the cursor's logical line and offset, read off the row structure), `resizeRel` (the whole
+  relation), `keptOrCut` (its "none altered, reordered or invented" clause), `rowsOnlyOK`.
+
+  Proved here, for all buffers / terminals / sizes (no bounds):
+  * `C10_resize`           — the FULL statement `C10_resize_full`: for every state satisfying the global
+                             invariant, primary screen, unlimited scrollback, every new width and height
+                             ≥ 1: the cursor stays in the same logical line, every line above is unchanged,
+                             the text before the cursor is intact, the cursor is on the same character
+                             (when it was on one), the lines from the cursor's line on are kept or cut
+                             short at the bottom, blank filler aside (`resizeRel`);
+  * `C10_chain`            — the same along every chain of resizes (`C10_chain_full`), GIVEN that the
+                             invariant is preserved by `Vt.resize` (C02's theorem, taken as a hypothesis);
+  * `C10_reflow_logical`   — the `Reflow` iterator keeps the logical lines, for every input and width
+                             (with `C10_contract_content`, `C10_extend_content` for the two row operations);
+  * `C10_resize_lines`     — EVERY resize of any buffer (no invariant needed, any cursor): the logical
+                             lines after are the old ones, the last ones possibly dropped / one cut short
+                             at the bottom, possibly followed by blank filler (`keptOrCut`);
+  * `C10_rows_only`, `C10_rows_only_rows` — the height-only half (no reflow), also on the rows themselves;
+  * `C10_cursorLogical_eq_logicalPosition` — the structural `cursorLogical` is what the code's
+                             `logical_position` computes.
+  The width-changing case (`Lemmas/C10Width*.lean`) factors `Buffer.resize` as: reflow + cursor
+  translation, then a height-only resize of the reflowed rows; it uses the phase decomposition and the
+  totality facts of Lemmas/Resize.lean (`rsStep1`, `rsStep2`, `resize_eq`, `rsStep1_ok`, `rsStep2_ok`).
+-/
+import Avt.Lemmas.C10Width3
+
+namespace Avt.Props.C10
+open Avt Avt.Spec.C10 Avt.Lemmas
+
+/-- the cursor's logical position of a terminal -/
+def cursorOf (t : Terminal) : Nat × Nat := cursorLogical t.buffer (t.cursor.col, t.cursor.row)
+
+/-- **C10, full statement** (kept as a definition: proved below for width-preserving resizes, and —
+    without the cursor clauses — for all resizes). -/
+def C10_resize_full : Prop :=
+  ∀ (v v' : Vt) (c r : Nat) (ch : Changes),
+    Inv v = true → 1 ≤ c → 1 ≤ r →
+    v.terminal.activeBufferType = .primary → v.terminal.scrollbackLimit = none →
+    v.resize c r = some (v', ch) →
+    resizeRel (logicalLines v.terminal.buffer.lines) (logicalLines v'.terminal.buffer.lines)
+      (cursorOf v.terminal).1 (cursorOf v.terminal).2
+      (cursorOf v'.terminal).1 (cursorOf v'.terminal).2 v.terminal.pendingWrap = true
+
+/-- chains of resizes: the relation holds at every step of the chain (by `C10_resize_full` applied at
+    each step; every step starts from a state satisfying `Inv` by C02) -/
+def C10_chain_full : Prop :=
+  ∀ (v : Vt) (sizes : List (Nat × Nat)), Inv v = true →
+    v.terminal.activeBufferType = .primary → v.terminal.scrollbackLimit = none →
+    (∀ s ∈ sizes, 1 ≤ s.1 ∧ 1 ≤ s.2) →
+    ∀ (pre : List (Nat × Nat)) (c r : Nat) (post : List (Nat × Nat)), sizes = pre ++ (c, r) :: post →
+    ∀ (v1 v2 : Vt) (ch : Changes),
+      pre.foldlM (fun (w : Vt) s => (w.resize s.1 s.2).map (·.1)) v = some v1 →
+      v1.resize c r = some (v2, ch) →
+      resizeRel (logicalLines v1.terminal.buffer.lines) (logicalLines v2.terminal.buffer.lines)
+        (cursorOf v1.terminal).1 (cursorOf v1.terminal).2
+        (cursorOf v2.terminal).1 (cursorOf v2.terminal).2 v1.terminal.pendingWrap = true
+
+/-! ### the row operations and the reflow iterator -/
+
+/-- `Line::contract` keeps the logical lines: the two pieces read like the row they came from -/
+theorem C10_contract_content (l : Line) (len : Nat) (tail : List Line) :
+    logicalLines ((l.contract len).1 :: ((l.contract len).2.toList ++ tail)) = logicalLines (l :: tail) :=
+  contract_content l len tail
+
+/-- `Line::extend` keeps the logical lines: what it returns reads like the two rows it was given -/
+theorem C10_extend_content {l other : Line} {len : Nat} {l' : Line} {emit : Bool} {r : Option Line}
+    (h : l.extend other len = some (l', emit, r)) (tail : List Line) :
+    logicalLines (l' :: (r.toList ++ tail)) = logicalLines (l :: other :: tail) :=
+  extend_content h tail
+
+/-- reflowing any list of rows to any width keeps the logical lines -/
+theorem C10_reflow_logical {ls out : List Line} {c : Nat} (h : Buffer.reflow ls c = some out) :
+    logicalLines out = logicalLines ls :=
+  reflow_logical h
+
+/-! ### every resize: no logical line altered, reordered or invented -/
+
+/-- `Buffer.resize` for every geometry and every cursor -/
+theorem C10_buffer_resize_lines {b b' : Buffer} {c r : Nat} {cur cur' : Nat × Nat}
+    (h : b.resize c r cur = some (b', cur')) :
+    keptOrCut (logicalLines b.lines) (logicalLines b'.lines) = true :=
+  resize_lines h
+
+/-- **C10 (line content), every resize.**  For `Vt.resize` to any width and height on an unlimited
+    buffer: the logical lines afterwards are the old ones in order, where the last ones may have been
+    dropped and one cut short (rows dropped at the bottom), followed at most by blank filler. -/
+theorem C10_resize_lines {v v' : Vt} {c r : Nat} {ch : Changes}
+    (hlim : v.terminal.buffer.limit = none) (h : v.resize c r = some (v', ch)) :
+    keptOrCut (logicalLines v.terminal.buffer.lines) (logicalLines v'.terminal.buffer.lines) = true := by
+  obtain ⟨b', cur', h1, h2, -⟩ := vt_resize_buffer hlim h
+  rw [h2]; exact resize_lines h1
+
+/-! ### height-only resize: the full statement -/
+
+/-- what a height-only `Buffer.resize` does to the rows and to the cursor -/
+theorem C10_rows_only_rows {b b' : Buffer} {r' : Nat} {cur cur' : Nat × Nat}
+    (hview : b.view.length = b.rows) (hcur : cur.2 < b.rows)
+    (h : b.resize b.cols r' cur = some (b', cur')) :
+    rowsOnlyOK b b' cur cur' = true :=
+  (resize_rows_only hview hcur h).1
+
+/-- the facts of the global invariant used below -/
+theorem inv_facts {v : Vt} (hinv : Inv v = true) :
+    let t := v.terminal
+    t.buffer.cols = t.cols ∧ t.buffer.rows = t.rows ∧ t.buffer.view.length = t.buffer.rows
+      ∧ (∀ l ∈ t.buffer.lines, l.len = t.buffer.cols) ∧ t.cursor.row < t.rows
+      ∧ t.cursor.col ≤ t.cols ∧ (t.pendingWrap = false → t.cursor.col < t.cols)
+      ∧ (t.activeBufferType = .primary → t.scrollbackLimit = none → t.buffer.limit = none)
+      ∧ 1 ≤ t.buffer.rows ∧ lastUnwrapped t.buffer.lines = true := by
+  simp only [Inv, TInv, BInv, Bool.and_eq_true, beq_iff_eq, decide_eq_true_eq, List.all_eq_true,
+    Bool.or_eq_true, Bool.not_eq_true'] at hinv
+  obtain ⟨-, ⟨⟨⟨⟨⟨⟨⟨⟨⟨⟨⟨⟨⟨⟨⟨⟨hc, hr⟩, hb⟩, -⟩, hrow⟩, hpend⟩, -⟩, -⟩, -⟩, -⟩, -⟩, -⟩, -⟩, -⟩, -⟩, hlim⟩, -⟩⟩ := hinv
+  obtain ⟨⟨⟨⟨⟨⟨⟨-, hr1⟩, hvl⟩, hvw⟩, hsw⟩, hvlu⟩, -⟩, -⟩ := hb
+  refine ⟨hc, hr, hvl, ?_, hrow, ?_, ?_, ?_, hr1, ?_⟩
+  · intro l hl
+    simp only [Buffer.lines, List.mem_append] at hl
+    rcases hl with hl | hl
+    · exact hsw l hl
+    · exact hvw l hl
+  · rcases hpend with ⟨-, h2⟩ | ⟨-, h2⟩ <;> omega
+  · intro hp
+    rcases hpend with ⟨h1, -⟩ | ⟨-, h2⟩
+    · rw [hp] at h1; cases h1
+    · exact h2
+  · intro hprim hnone
+    rw [hprim] at hlim
+    simp only [hnone, Option.map_none] at hlim
+    exact eq_of_beq hlim
+  · have hne : v.terminal.buffer.view ≠ [] := by
+      intro h0; rw [h0] at hvl; simp at hvl; omega
+    simp only [Buffer.lines]
+    rw [lastUnwrapped_append hne]; exact hvlu
+
+/-- **C10 for resizes that keep the width** (any new height): the full relation — the cursor stays
+    in the same logical line at the same offset, every line above is unchanged, the text before the
+    cursor is intact, the cursor is on the same character, and the lines from the cursor's line on are
+    kept or cut short at the bottom (blank filler may follow). -/
+theorem C10_rows_only {v v' : Vt} {r : Nat} {ch : Changes} (hinv : Inv v = true)
+    (hprim : v.terminal.activeBufferType = .primary) (hlim : v.terminal.scrollbackLimit = none)
+    (h : v.resize v.terminal.cols r = some (v', ch)) :
+    resizeRel (logicalLines v.terminal.buffer.lines) (logicalLines v'.terminal.buffer.lines)
+      (cursorOf v.terminal).1 (cursorOf v.terminal).2
+      (cursorOf v'.terminal).1 (cursorOf v'.terminal).2 v.terminal.pendingWrap = true := by
+  obtain ⟨hc, hr, hvl, hlens, hrow, hcol, hstrict, hl, -, -⟩ := inv_facts hinv
+  obtain ⟨b', cur', h1, h2, h3, -, -, h6, h7⟩ := vt_resize_buffer (hl hprim hlim) h
+  have hcur' : cursorOf v'.terminal = cursorLogical b' cur' := by
+    simp only [cursorOf, cursorLogical, h2, h3, h6, h7]
+  rw [hcur', h2]
+  rw [← hc] at h1
+  exact rows_only_rel v.terminal.pendingWrap hvl hlens (by rw [hr]; exact hrow) (by rw [hc]; exact hcol)
+    (by rw [hc]; exact hstrict) h1
+
+/-- **C10**: the full statement holds -/
+theorem C10_resize : C10_resize_full := by
+  intro v v' c r ch hinv hc1 hr1 hprim hlim h
+  obtain ⟨hc, hr, hvl, hlens, hrow, hcol, hstrict, hl, hrows, hlu⟩ := inv_facts hinv
+  by_cases hsame : c = v.terminal.cols
+  · subst hsame; exact C10_rows_only hinv hprim hlim h
+  · obtain ⟨b', cur', h1, h2, h3, -, -, h6, h7⟩ := vt_resize_buffer (hl hprim hlim) h
+    have hcur' : cursorOf v'.terminal = cursorLogical b' cur' := by
+      simp only [cursorOf, cursorLogical, h2, h3, h6, h7]
+    rw [hcur', h2]
+    exact width_rel v.terminal.pendingWrap hvl hrows hlens hlu (by rw [hr]; exact hrow) hc1 hr1
+      (by rw [hc]; exact hsame) h1
+
+/-- the restriction to `c = cols` (kept under its own name: it does not depend on the reflow lemmas) -/
+theorem C10_resize_partial : ∀ (v v' : Vt) (r : Nat) (ch : Changes),
+    Inv v = true → v.terminal.activeBufferType = .primary → v.terminal.scrollbackLimit = none →
+    v.resize v.terminal.cols r = some (v', ch) →
+    resizeRel (logicalLines v.terminal.buffer.lines) (logicalLines v'.terminal.buffer.lines)
+      (cursorOf v.terminal).1 (cursorOf v.terminal).2
+      (cursorOf v'.terminal).1 (cursorOf v'.terminal).2 v.terminal.pendingWrap = true :=
+  fun _ _ _ _ hinv hprim hlim h => C10_rows_only hinv hprim hlim h
+
+/-- what `Vt.resize` keeps of the hypotheses of C10 (`Terminal.resize` touches neither) -/
+theorem resize_keeps_mode {v v' : Vt} {c r : Nat} {ch : Changes} (h : v.resize c r = some (v', ch)) :
+    v'.terminal.activeBufferType = v.terminal.activeBufferType
+      ∧ v'.terminal.scrollbackLimit = v.terminal.scrollbackLimit := by
+  unfold Vt.resize at h
+  cases ht : v.terminal.resize c r with
+  | none => simp [ht] at h
+  | some t' =>
+    simp only [ht, Option.map_some, Option.some.injEq] at h
+    obtain ⟨-, -, -, -, -, h5, h6⟩ := terminal_resize_buffer ht
+    have hv : v'.terminal = ((Terminal.changes t').1.gc).1 := by
+      simp only [Vt.finish] at h
+      rw [← (Prod.mk.inj h).1]
+    rw [hv]
+    simp only [Terminal.gc, Terminal.changes]
+    exact ⟨h5, h6⟩
+
+/-- **C10 along chains of resizes**, given that `Vt.resize` preserves the global invariant (that is
+    C02's theorem; it is a hypothesis here so that this file does not depend on C02's proof) -/
+theorem C10_chain
+    (hC02 : ∀ (w w' : Vt) (c r : Nat) (ch : Changes), Inv w = true → 1 ≤ c → 1 ≤ r →
+      w.resize c r = some (w', ch) → Inv w' = true) : C10_chain_full := by
+  intro v sizes hinv hprim hlim hsz pre c r post hsplit v1 v2 ch hpre hstep
+  -- the state reached after the prefix still satisfies the hypotheses
+  have key : ∀ (pre : List (Nat × Nat)) (w : Vt), Inv w = true →
+      w.terminal.activeBufferType = .primary → w.terminal.scrollbackLimit = none →
+      (∀ s ∈ pre, 1 ≤ s.1 ∧ 1 ≤ s.2) → ∀ w1,
+      pre.foldlM (fun (w : Vt) s => (w.resize s.1 s.2).map (·.1)) w = some w1 →
+      Inv w1 = true ∧ w1.terminal.activeBufferType = .primary ∧ w1.terminal.scrollbackLimit = none := by
+    intro pre
+    induction pre with
+    | nil =>
+      intro w hw hp hl _ w1 h1
+      simp only [List.foldlM_nil, Option.pure_def, Option.some.injEq] at h1
+      subst h1; exact ⟨hw, hp, hl⟩
+    | cons s rest ih =>
+      intro w hw hp hl hs w1 h1
+      simp only [List.foldlM_cons, Option.bind_eq_bind] at h1
+      cases hres : w.resize s.1 s.2 with
+      | none => simp [hres] at h1
+      | some res =>
+        obtain ⟨w', ch'⟩ := res
+        simp only [hres, Option.map_some, Option.bind_some] at h1
+        have hs1 := hs s (by simp)
+        obtain ⟨k1, k2⟩ := resize_keeps_mode hres
+        exact ih w' (hC02 w w' s.1 s.2 ch' hw hs1.1 hs1.2 hres) (by rw [k1]; exact hp)
+          (by rw [k2]; exact hl) (fun x hx => hs x (by simp [hx])) w1 h1
+  have hpre' : ∀ s ∈ pre, 1 ≤ s.1 ∧ 1 ≤ s.2 := fun s hs => hsz s (by rw [hsplit]; simp [hs])
+  obtain ⟨i1, i2, i3⟩ := key pre v hinv hprim hlim hpre' v1 hpre
+  have hcr := hsz (c, r) (by rw [hsplit]; simp)
+  exact C10_resize v1 v2 c r ch i1 hcr.1 hcr.2 i2 i3 hstep
+
+/-! ### the cursor's logical position -/
+
+/-- `cursorLogical` (defined from the row structure) is what `Buffer::logical_position` computes -/
+theorem C10_cursorLogical_eq_logicalPosition {b : Buffer} {cur : Nat × Nat}
+    (hview : b.view.length = b.rows) (hlens : ∀ l ∈ b.lines, l.len = b.cols) (hcur : cur.2 < b.rows) :
+    Buffer.logicalPosition b.lines cur b.cols b.rows
+      = some ((cursorLogical b cur).2, (cursorLogical b cur).1) :=
+  cursorLogical_eq_logicalPosition hview hlens hcur
+
+/-! ### a concrete instance: 3x2 terminal after "abcd", cursor moved back onto the 'd' -/
+
+def demo : Option Vt :=
+  (Vt.new 3 2 none).bind fun v => (v.feedStr [0x61, 0x62, 0x63, 0x64, 0x1b, 0x5b, 0x44]).map (·.1)
+
+def relOf (v v' : Vt) : Bool :=
+  resizeRel (logicalLines v.terminal.buffer.lines) (logicalLines v'.terminal.buffer.lines)
+    (cursorOf v.terminal).1 (cursorOf v.terminal).2
+    (cursorOf v'.terminal).1 (cursorOf v'.terminal).2 v.terminal.pendingWrap
+
+/-- the hypotheses of `C10_rows_only` / `C10_resize_full` are satisfiable, the cursor is on a
+    character of the text (offset 3 of "abcd", wrapped over two rows), and the relation holds for a
+    narrowing resize (3x2 → 2x2: three rows, the cursor's line index and offset are kept), a widening
+    one (→ 5x1) and a height-only one (→ 3x1, which must not cut the text before the cursor) -/
+example :
+    (match demo with
+     | some v =>
+       Inv v && v.terminal.activeBufferType == .primary && v.terminal.scrollbackLimit == none
+         && cursorOf v.terminal == (0, 3)
+         && onChar (logicalLines v.terminal.buffer.lines) 0 3 v.terminal.pendingWrap
+         && (match v.resize 2 2, v.resize 5 1, v.resize 3 1 with
+             | some (a, _), some (b, _), some (c, _) =>
+               relOf v a && relOf v b && relOf v c && cursorOf a.terminal == (0, 3)
+                 && cursorOf b.terminal == (0, 3) && cursorOf c.terminal == (0, 3)
+             | _, _, _ => false)
+     | none => false) = true := by decide
+
+end Avt.Props.C10
